@@ -13,4 +13,5 @@ pub mod model;
 pub mod observe;
 pub mod props;
 pub mod runner;
+pub mod sched;
 pub mod spec;
